@@ -2,4 +2,5 @@ SPECIFICATION Spec
 CONSTANTS
   MaxKeys = 3
   KeyCols = {"name", "ext", "size", "hardlinks", "modified", "length(name)", "size + 1", "length(name) * 4", "is_dir", "uid", "dir", "day(modified)", "year(modified)"}
+  WorldSel = {0}
 INVARIANTS EmitWorld Emit
